@@ -31,7 +31,7 @@ def run_unit(desc):
         "spec_validation": [],
         "bounded": [],
     }
-    if tier == "thorough" and not h.unsupported:
+    if tier == "thorough" and not h.unsupported and getattr(c, "must_fail", True):
         # must-fail obligations: in-memory mutants of the function under contract have to be refuted
         from . import mutate
 
